@@ -72,7 +72,7 @@ func init() {
 		Technique:   "static analysis: interprocedural assume/guarantee must-facts dataflow over go/cfg; sibling cross-check of the two routers",
 		Rules:       []string{"E1"},
 		Run: func(c *Ctx) {
-			RunE1(c, "C04", obs)
+			RunE1(c, "C04", append(append([]Ob{}, obs...), sharedObs["C04"]...))
 			RunCallers(c, "E1.token-sink-table", "op.CreateTokenResponse",
 				[]string{"op.CodeExchange", "op.RefreshTokenExchange", "op.AuthResponseToken", "op.(*LegacyServer).CodeExchange", "op.(*LegacyServer).RefreshToken"},
 				"every caller of the token-issuing sink needs an obligation (C04/C07/C03)")
